@@ -75,3 +75,25 @@ Proof.
     unfold collect_hrow at 1. cbn [andthen]. rewrite IH. rewrite <- app_assoc. reflexivity. }
   rewrite G. cbn [andthen]. rewrite app_nil_r. reflexivity.
 Qed.
+
+(* SelectDone's early stop at the high level: the first k mapped rows, exactly, then "stopped" -
+   whatever follows them in the tree, a damaged page included, is not visited *)
+Lemma run_cb_map {S A B} (f : A -> B) (cb : B -> S -> flow * S) l : forall s,
+  run_cb (fun x s => cb (f x) s) l s = run_cb cb (map f l) s.
+Proof.
+  induction l as [|x l IH]; intros s; cbn [run_cb map]; [reflexivity|].
+  destruct (cb (f x) s) as [[| |e] s']; cbn [andthen]; auto.
+Qed.
+
+Theorem select_stops pg op npages sc ms table columns ci root l oe k :
+  master pg op npages = (Continue, ms) -> s_worowid sc = false ->
+  to_ci_rowid sc columns = Ok ci -> find_root ms name_table table = Ok root ->
+  table_rows pg op npages root = (l, oe) -> (1 <= k <= length l)%nat ->
+  h_select pg op npages _ (stop_after (Some k)) sc table columns []
+  = (Stop, rev (firstn k (map (fun x => to_row (fst x) ci (snd x)) l))).
+Proof.
+  intros Hm Hw Hci Hr Hl Hk. rewrite (select_rowid_table pg op npages _ _ sc ms table columns Hm ci root [] Hw Hci Hr).
+  rewrite Hl. unfold run_flat. cbn [fst snd].
+  rewrite (run_cb_map (fun x : Z * record => to_row (fst x) ci (snd x)) (stop_after (Some k)) l []).
+  rewrite stop_after_firstn by (rewrite map_length; exact Hk). reflexivity.
+Qed.
